@@ -62,10 +62,10 @@ Proof.
   intros Hr Hs Hnt Hnt' Hl Hw.
   assert (Hb : match m with MBool b => length b = length gk | _ => True end)
     by (destruct m; simpl in *; auto).
-  rewrite (group_func_wrap_any_split o L SC r gk [vals] ng m nt); auto; try discriminate.
+  rewrite (group_func_wrap_any_split o L r gk [vals] ng m nt); auto; try discriminate.
   2:{ simpl. now rewrite app_nil_r. }
   2:{ destruct m; simpl; auto. }
-  rewrite (group_func_wrap_any_split o L SC r _ [index_by (null o) vals m] ng MNone nt'); auto; try discriminate.
+  rewrite (group_func_wrap_any_split o L r _ [index_by (null o) vals m] ng MNone nt'); auto; try discriminate.
   2:{ simpl. rewrite app_nil_r. now apply index_by_length. }
   2:{ exact I. }
   2:{ exact I. }
